@@ -659,8 +659,10 @@ int tokens_get(AsmContext *asm_context, char *token, int len)
 
   if (token_type != TOKEN_QUOTED && IS_TOKEN(token, '$'))
   {
-    snprintf(token, len, "%d",
-      asm_context->address / asm_context->bytes_per_address);
+    // The location counter is a 32 bit address: divide it as unsigned so
+    // addresses from 0x80000000 up are not turned into negative numbers.
+    snprintf(token, len, "%u",
+      (uint32_t)asm_context->address / asm_context->bytes_per_address);
     token_type = TOKEN_NUMBER;
   }
 
